@@ -574,3 +574,33 @@ class _Mangle(ast.NodeTransformer):
         if node.attr.startswith('__') and not node.attr.endswith('__'):
             node.attr = '_%s%s' % (self.cls, node.attr)
         return node
+
+
+def find_assign_values(modname, qualname, want):
+    """AST finder: values of assignments anywhere inside the function whose
+    target is a plain name in `want` or a subscript  base['KEY']  with
+    (base, KEY) in `want`.  Returns {want_item: compiled eval code} plus the
+    source text of each; a missing item is a harness error."""
+    node, path = get_function_ast(modname, qualname)
+    found = {}
+    for st in ast.walk(node):
+        if not isinstance(st, ast.Assign) or len(st.targets) != 1:
+            continue
+        t = st.targets[0]
+        key = None
+        if isinstance(t, ast.Name) and t.id in want:
+            key = t.id
+        elif isinstance(t, ast.Subscript) and isinstance(t.value, ast.Name):
+            sl = t.slice
+            if isinstance(sl, ast.Constant) and (t.value.id, sl.value) in want:
+                key = (t.value.id, sl.value)
+        if key is not None and key not in found:
+            expr = ast.Expression(body=_Rewrite().visit(st.value))
+            ast.fix_missing_locations(expr)
+            found[key] = (compile(expr, path + ':<expr>', 'eval'),
+                          ast.unparse(st))
+    missing = [w for w in want if w not in found]
+    if missing:
+        raise HarnessError('AST finder %s.%s: no assignment to %r' % (
+            modname, qualname, missing))
+    return found
